@@ -13,6 +13,13 @@ A(n) == 1000 + n
 B(n) == 2000 + n
 BigQ == { <<B(65535), 0>>, <<10, B(65535), 255>>, <<B(65536), A(1)>> }
 BigT == BigQ \cup { <<B(65536)>>, <<A(255), 13, 10, B(131072), 10>>, <<0, B(199999)>> }
+\* handle histories (queries through the long-lived object between its own writes): binary data with NUL, files with
+\* a UTF-8 / UTF-16LE byte-order mark (text() reads those to the end of the stream), text with LF, CR LF, lone CR
+HBinQ == { <<255, 0, 10>>, <<239, 187, 191, 97>> }
+HTxtQ == { <<98, 10>>, <<13>> }
+HBinT == { <<>>, <<255, 0, 10>>, <<239, 187, 191, 97>>, <<255, 254, 97, 0>> }
+HTxtT == { <<>>, <<98, 10>>, <<13, 10>>, <<99, 13>> }
+AllKinds == {"size", "exists", "isfile", "content", "first", "text", "lines", "loop"}
 NoChunks == {}
 \* scalar values at the encoding-length boundaries of UTF-8 and UTF-16
 Scalars == {10, 13, 65, 127, 128, 233, 2047, 2048, 8364, 55295, 57344, 65533, 65535, 65536, 128512, 1114111}
